@@ -51,7 +51,8 @@ LexLess(a, b) == IF b = <<>> THEN FALSE ELSE IF a = <<>> THEN TRUE
                  ELSE IF a[1] # b[1] THEN a[1] < b[1] ELSE LexLess(Tail(a), Tail(b))
 \* BIP67 rank of the keys (distinct keys)
 RankOf(pubs) == [k \in 1..Len(pubs) |-> Cardinality({j \in 1..Len(pubs) : LexLess(pubs[j], pubs[k])}) + 1]
-Cfg(r) == [n |-> Len(r.pubs), m |-> r.m, holder |-> IF "holder" \in DOMAIN r THEN r.holder ELSE <<>>]
+Cfg(r) == [n |-> Len(r.pubs), m |-> r.m, holder |-> IF "holder" \in DOMAIN r THEN r.holder ELSE <<>>,
+           afs |-> IF "afs" \in DOMAIN r THEN r.afs ELSE <<>>, height |-> IF "height" \in DOMAIN r THEN r.height ELSE <<>>]
 \* keys in script order: BIP67 order (wallets created with sort_keys) or, for wallets created with sort_keys=False,
 \* the order in which all of them were given the keys (r.listing)
 ScriptKeys(r) == IF r.sorted THEN LET sc == TheScript(Cfg(r), RankOf(r.pubs)) IN [i \in 1..Len(sc.keys) |-> r.pubs[sc.keys[i]]]
@@ -210,16 +211,25 @@ ArrivedAs(evs, i, w) == IF i < 1 THEN "new"
                         ELSE ArrivedAs(evs, i - 1, w)
 \* C: candidate specification states [st, dev] consistent with everything observed so far; dev = the deviations
 \* that explanation needs (a sequence of names).  T: wallets whose copy descends from a Sign in the input class of
-\* DevSign (its signature list may be corrupted; what such a copy shows is attributed to that deviation).
+\* DevSign (its signature list may be corrupted).  TB: wallets whose copy descends from a hand-off that rewrote the body
+\* (DevRawLt, DevDictSeq: the signatures it carries are stale).  What such copies show about their signatures is
+\* attributed to those deviations; their body is still judged.
+DevRawLt == "raw-import-applies-importer-locktime"
+DevDictSeq == "dict-import-resets-sequences"
+DevSets == {{Dev}, {DevRawLt}, {DevDictSeq}, {Dev, DevRawLt}}
 DevsOf(S) == IF \E c \in S : c.dev = <<>> THEN <<>> ELSE (CHOOSE c \in S : TRUE).dev
-RECURSIVE Walk(_, _, _, _, _, _, _)
-Walk(r, cfg, C, cons, rs, i, T) ==
+RECURSIVE AddNames(_, _)
+AddNames(q, D) == IF D = {} THEN q
+                  ELSE LET d == CHOOSE x \in D : TRUE IN AddNames(IF d \in SetOf(q) THEN q ELSE Append(q, d), D \ {d})
+RECURSIVE Walk(_, _, _, _, _, _, _, _)
+Walk(r, cfg, C, cons, rs, i, T, TB) ==
     IF i > Len(r.events) THEN [v |-> "ok", at |-> 0, dev |-> DevsOf(C)]
     ELSE LET e == r.events[i]
              a == A(e, cons)
+             tgt == TargetOf(a)
              N == UNION { {[st |-> x, dev |-> c.dev] : x \in Act(cfg, c.st, a, {})}
-                          \cup {[st |-> x, dev |-> IF Dev \in SetOf(c.dev) THEN c.dev ELSE Append(c.dev, Dev)] :
-                                   x \in Act(cfg, c.st, a, {Dev}) \ Act(cfg, c.st, a, {})} : c \in C }
+                          \cup UNION { {[st |-> x, dev |-> AddNames(c.dev, D)] : x \in Act(cfg, c.st, a, D) \ Act(cfg, c.st, a, {})} :
+                                         D \in DevSets } : c \in C }
              K == {c \in N : Why(r, cfg, c.st, e, cons, rs) = ""}
              via == ArrivedAs(r.events, i - 1, a.w)
              \* the call raised: only the listed deviation explains that (the ceremony ends there)
@@ -227,24 +237,33 @@ Walk(r, cfg, C, cons, rs, i, T) ==
              T1 == CASE a.op = "sign" /\ (\E c \in C : SignScrambles(cfg, c.st, a.w, via, {DevSign})) -> T \cup {a.w}
                      [] a.op = "handoff" -> IF a.w \in T THEN T \cup {a.v} ELSE T \ {a.v}
                      [] a.op \in {"propose", "send_to"} -> T \ {a.w}
-                     [] OTHER -> T IN
+                     [] OTHER -> T
+             \* the body some candidate predicts for the target is the body observed
+             bodyok == e.tx = 0 \/ \E c \in N : c.st.copy[tgt].body = cons[e.tx].body
+             rewritten == a.op = "handoff" /\ e.tx > 0 /\ \A c \in C : c.st.copy[a.w].body # cons[e.tx].body
+             TB1 == CASE a.op = "handoff" -> IF a.w \in TB \/ rewritten THEN TB \cup {a.v} ELSE TB \ {a.v}
+                      [] a.op \in {"propose", "send_to"} -> TB \ {a.w}
+                      [] OTHER -> TB
+             P == {c \in N : c.dev = <<>>}
+             c0 == CHOOSE c \in (IF P # {} THEN P ELSE N) : TRUE IN
          IF N = {} THEN [v |-> "action-not-enabled-in-the-specification", at |-> i, dev |-> <<>>]
          ELSE IF ~e.ok THEN (IF D # {} /\ i = Len(r.events)
                              THEN [v |-> "ok", at |-> 0, dev |-> Append(DevsOf(D), DevDict)]
                              ELSE [v |-> "action-raised", at |-> i, dev |-> <<>>])
-         ELSE IF K # {} THEN Walk(r, cfg, K, cons, rs, i + 1, T1)
-         \* a possibly corrupted signature list: nothing further of this ceremony is judged
-         ELSE IF TargetOf(a) \in T1 THEN [v |-> "ok", at |-> 0, dev |-> Append(DevsOf(C), DevSign)]
-         ELSE LET P == {c \in N : c.dev = <<>>}
-                  c0 == CHOOSE c \in (IF P # {} THEN P ELSE N) : TRUE IN
-              [v |-> Why(r, cfg, c0.st, e, cons, rs), at |-> i, dev |-> <<>>]
+         ELSE IF K # {} THEN Walk(r, cfg, K, cons, rs, i + 1, T1, TB1)
+         ELSE IF ~bodyok THEN [v |-> Why(r, cfg, c0.st, e, cons, rs), at |-> i, dev |-> <<>>]
+         \* stale or possibly corrupted signatures: nothing further of this ceremony is judged
+         ELSE IF tgt \in TB1 THEN [v |-> "ok", at |-> 0,
+                                    dev |-> DevsOf(IF e.tx > 0 THEN {c \in N : c.st.copy[tgt].body = cons[e.tx].body} ELSE N)]
+         ELSE IF tgt \in T1 THEN [v |-> "ok", at |-> 0, dev |-> Append(DevsOf(C), DevSign)]
+         ELSE [v |-> Why(r, cfg, c0.st, e, cons, rs), at |-> i, dev |-> <<>>]
 
 JudgeCeremony(r) ==
     LET cons == [k \in 1..Len(r.txs) |-> JudgeTx(r, r.txs[k])]
         need == Concat([k \in 1..Len(cons) |-> cons[k].need]) IN
     IF need # <<>> THEN [v |-> "need", at |-> 0, dev |-> <<>>, need |-> need, cons |-> <<>>]
     ELSE LET cfg == Cfg(r)
-             res == Walk(r, cfg, {[st |-> InitS(cfg), dev |-> <<>>]}, cons, ScriptBytes(r), 1, {}) IN
+             res == Walk(r, cfg, {[st |-> InitS(cfg), dev |-> <<>>]}, cons, ScriptBytes(r), 1, {}, {}) IN
          [v |-> res.v, at |-> res.at, dev |-> res.dev, need |-> <<>>, cons |-> [k \in 1..Len(cons) |-> cons[k].v]]
 
 Judge(r) == IF r.kind = "agree" THEN JudgeAgree(r) ELSE JudgeCeremony(r)
